@@ -802,7 +802,7 @@ def request_classes(F, R):
     for ver in ('v3', 'v5'):
         adt = F.adts['%s::codec::Decoded' % ver]
         for fn, var in (('is_publish', 'Publish'), ('is_chunk', 'PayloadChunk')):
-            b = F.one(r'^%s::(\w+::)*<impl inflight::SizedRequest for %s::codec::Decoded>::%s$' % (ver, ver, fn))   # (the impl may live next to the type)
+            b = F.one(r'^(%s::(\w+::)*<impl inflight::SizedRequest for %s::codec::Decoded>|<%s::codec::Decoded as inflight::SizedRequest>)::%s$' % (ver, ver, ver, fn))   # (the impl may live next to the type)
             n += 1
             tab, other = {}, []
             for p in SymEx(b, F, max_paths=400).run():
@@ -829,9 +829,29 @@ def request_classes(F, R):
     R.floor('C10.feed', 'request classifiers of the in-flight limiter', n, 4)
 
 
+def min_chunk_installed(F, R):
+    """The configured minimum chunk size reaches the decoder of every connection: the four places that set a connection up
+    (v3/v5 server handshake, v3/v5 client connector) call set_min_chunk_size(cfg.min_chunk_size) on every path that goes on to
+    create the session / client - not only under some unrelated condition (e.g. only when the peer sent a size limit)."""
+    n = 0
+    for pat, name in ((r'^<v3::server::HandshakeService<St, H> as ntex_service::Service<ntex_io::IoBoxed>>::call::\{closure#0\}$', 'v3-server'),
+                      (r'^<v5::server::HandshakeService<St, H> as ntex_service::Service<ntex_io::IoBoxed>>::call::\{closure#0\}$', 'v5-server'),
+                      (r'^v3::client::connector::MqttConnectorService::<A, T>::connect_inner::\{closure#0\}$', 'v3-client'),
+                      (r'^v5::client::connector::MqttConnectorService::<A, T>::connect_inner::\{closure#0\}$', 'v5-client')):
+        b = F.one(pat)
+        sets = [bi for bi, t in b.calls_to(r'::set_min_chunk_size$') if (apath(b, t['args'][1]) or ('',))[-1] == 'min_chunk_size']
+        n += len(sets)
+        oks = [bi for bi, j, s in agg_sites(b, r'^std::result::Result$', 'Ok') if s['lhs']['l'] in b.ret_locals]
+        bad = [o for o in oks if not b.must_pass(sets, o)]
+        R.ob('C10.feed', '%s|min_chunk_size-installed-on-every-accepted-connection' % name, bool(sets) and bool(oks) and not bad,
+             'a connection can be set up without the configured min_chunk_size reaching its decoder (the setter is skipped on some path): the handler then receives non-final pieces smaller than the configured minimum', b.loc(bad[0]) if bad else b.loc(0))
+    R.floor('C10.feed', 'min_chunk_size installations', n, 4)
+
+
 def run(F, R):
     payload_failed_only_at_teardown(F, R)
     request_classes(F, R)
+    min_chunk_installed(F, R)
     read_all(F, R)
     partial_frame_reads(F, R)
     for ver in ('v5', 'v3'):
